@@ -135,6 +135,22 @@ class SymbolicExpression(Generic[T], ABC):
         self._seen_parent_values_by_parent_ = {}
         self._eval_parent_ = None
 
+    def _clear_result_caches_(self) -> None:
+        """
+        Clear the result caches of the symbolic expression and its children. This is needed when an evaluation did not
+        run to completion (abandoned result iterator, exception), because the caches are marked as covering the
+        lookups that were started while they only hold the results produced so far.
+        """
+        self._clear_only_my_result_caches_()
+        for child in self._children_:
+            child._clear_result_caches_()
+
+    def _clear_only_my_result_caches_(self) -> None:
+        """
+        Clear only the result caches of this symbolic expression.
+        """
+        ...
+
     @abstractmethod
     def _evaluate__(self, sources: Optional[Dict[int, HashedValue]] = None, yield_when_false: bool = False) -> Iterable[Dict[int, HashedValue]]:
         """
@@ -472,13 +488,17 @@ class The(ResultQuantifier[T]):
     """
 
     def evaluate(self) -> TypingUnion[Iterable[T], T, UnificationDict]:
+        completed = False
         try:
             result = self._evaluate_()
             result = self._process_result_(result)
+            completed = True
         finally:
             # also when NoSolutionFound/MultipleSolutionFound is raised, otherwise the next evaluation starts from
             # the duplicate-tracking state this one left behind.
             self._reset_cache_()
+            if not completed:
+                self._clear_result_caches_()
         return result
 
     def _evaluate__(self, sources: Optional[Dict[int, HashedValue]] = None, yield_when_false: bool = False) -> Iterable[Dict[int, HashedValue]]:
@@ -522,17 +542,25 @@ class An(ResultQuantifier[T]):
 
     def evaluate(self) -> Iterable[TypingUnion[T, Dict[TypingUnion[T, SymbolicExpression[T]], T]]]:
         results = map(self._process_result_, self._evaluate__())
-        while True:
-            # Symbolic mode is switched off only while the next result is computed, not while this generator is
-            # suspended at the yield, such that the caller's mode is never changed by creating, advancing, closing or
-            # dropping the result iterator.
-            with symbolic_mode(mode=None):
-                try:
-                    result = next(results)
-                except StopIteration:
-                    break
-            yield result
-        self._reset_cache_()
+        completed = False
+        try:
+            while True:
+                # Symbolic mode is switched off only while the next result is computed, not while this generator is
+                # suspended at the yield, such that the caller's mode is never changed by creating, advancing, closing
+                # or dropping the result iterator.
+                with symbolic_mode(mode=None):
+                    try:
+                        result = next(results)
+                    except StopIteration:
+                        break
+                yield result
+            completed = True
+        finally:
+            # also when the iterator is abandoned or an exception is raised, such that the next evaluation does not
+            # start from the state this one left behind.
+            self._reset_cache_()
+            if not completed:
+                self._clear_result_caches_()
 
     def _evaluate__(self, sources: Optional[Dict[int, HashedValue]] = None, yield_when_false: bool = False) -> Iterable[T]:
         sources = sources or {}
@@ -1347,6 +1375,9 @@ class BinaryOperator(SymbolicExpression, ABC):
         cache = self._cache_ if cache is None else cache
         cache.insert({k: v for k, v in values.items() if k in cache.keys}, output=self._is_false_)
 
+    def _clear_only_my_result_caches_(self) -> None:
+        self._cache_.clear()
+
     @property
     @lru_cache(maxsize=None)
     def _all_variable_instances_(self) -> List[Variable]:
@@ -1570,6 +1601,10 @@ class LogicalOperator(BinaryOperator, ABC):
         right_vars = self.right._unique_variables_.filter(lambda v: not isinstance(v, Literal))
         self.right_cache.keys = [v.id_ for v in right_vars]
 
+    def _clear_only_my_result_caches_(self) -> None:
+        super()._clear_only_my_result_caches_()
+        self.right_cache.clear()
+
     @property
     def _name_(self):
         return self.__class__.__name__
@@ -1667,6 +1702,10 @@ class Union(OR):
     left_cache: IndexedCache = field(default_factory=IndexedCache, init=False)
     left_evaluated: bool = field(default=False, init=False)
     right_evaluated: bool = field(default=False, init=False)
+
+    def _clear_only_my_result_caches_(self) -> None:
+        super()._clear_only_my_result_caches_()
+        self.left_cache.clear()
 
     def _evaluate__(self, sources: Optional[Dict[int, HashedValue]] = None, yield_when_false: bool = False) -> Iterable[Dict[int, HashedValue]]:
         # init an empty source if none is provided
